@@ -271,6 +271,23 @@ let do_writer k always rep num vs =
   | Panic -> "PANIC"
   | Ok b -> hex_of_bytes b
 
+(* eprog: (prog <call>...) with calls (s kind always rep field (l vals)) (en field int...) (m field ok call...) (am ..) (pm ..)
+   (ab field call...) (u xHEX)  ->  pico=<hex|PANIC> spec=<hex> ok=<0|1> *)
+let rec call_of_sx (x : sx) : ecall =
+  match x with
+  | L [A "s"; A k; A a; A r; A f; L (A "l" :: vs)] -> CScalar (kind_of_string k, a = "1", r = "1", z_of_string f, List.map val_of_sx vs)
+  | L (A "en" :: A f :: vs) -> CRepEnum (z_of_string f, List.map (function A n -> z_of_string n | _ -> failwith "en") vs)
+  | L (A "m" :: A f :: A ok :: cs) -> CMessage (z_of_string f, List.map call_of_sx cs, ok = "1")
+  | L (A "am" :: A f :: A ok :: cs) -> CAlwaysMessage (z_of_string f, List.map call_of_sx cs, ok = "1")
+  | L (A "pm" :: A f :: A ok :: cs) -> CPresentMessage (z_of_string f, List.map call_of_sx cs, ok = "1")
+  | L (A "ab" :: A f :: cs) -> CAlwaysAnyBytes (z_of_string f, List.map call_of_sx cs)
+  | L [A "u"; A h] -> CUnrec (bytes_of_hex h)
+  | _ -> failwith "call"
+let do_eprog p =
+  let cs = (match parse_sx p with L (A "prog" :: cs) -> List.map call_of_sx cs | _ -> failwith "prog") in
+  "pico=" ^ (match mx_run_calls cs with Panic -> "PANIC" | Ok b -> hex_of_bytes b) ^ " spec=" ^ hex_of_bytes (mx_spec_calls cs) ^
+  " ok=" ^ (if mx_calls_ok cs then "1" else "0")
+
 let do_reader k rep field data init =
   let k = if k = "enum" then "int32" else k in   (* RepeatedEnum: the element is int32(x) *)
   let ((((pf, pw), rem), e), vs) = mx_reader (kind_of_string k) (rep = "1") (z_of_string field) (bytes_of_hex data) (vals_of_string init) in
@@ -341,6 +358,7 @@ let dispatch suite cols =
   | "hist", tref :: _ :: cs :: _ -> do_hist tref cs
   | "progs", name :: _ -> do_progs name
   | "writer", k :: a :: r :: num :: vs :: _ -> do_writer k a r num vs
+  | "eprog", p :: _ -> do_eprog p
   | "reader", k :: r :: f :: data :: init :: _ -> do_reader k r f data init
   | "nreader", k :: r :: f :: data :: init :: wrap :: _ -> do_nested_reader k r f data init wrap
   | "durdec", s :: n :: _ -> string_of_z (mx_dur_join (z_of_string s) (z_of_string n))
